@@ -27,7 +27,7 @@ PROPS = {
             native("rx-release", "c05", "release"),
             native("rx-debug", "c05", "debug", args={"scale-pct": dict(quick=25, thorough=10)}),
             # the same generator under Miri: an out-of-bounds or aliasing access in the receive path is a tool report
-            native("rx-miri", "c05", "miri", args={"cases-total": dict(quick=48, thorough=1600), "case-offset": 1000000}, shards=16, timeout=7200),
+            native("rx-miri", "c05", "miri", args={"cases-total": dict(quick=48, thorough=1600), "case-offset": 1000000}, shards=16, timeout=dict(quick=7200, thorough=6 * 3600)),
         ],
     ),
 
@@ -47,7 +47,7 @@ PROPS = {
         runs=[
             native("sched-release", "c01", "release", args={"family": "c01", "scale-pct": dict(quick=500, thorough=200)}),
             native("sched-debug", "c01", "debug", args={"family": "c01", "scale-pct": dict(quick=60, thorough=10)}),
-            native("sched-miri", "c01", "miri", args={"family": "c01", "cases-total": dict(quick=16, thorough=160), "case-offset": 1000000}, shards=16, timeout=7200),
+            native("sched-miri", "c01", "miri", args={"family": "c01", "cases-total": dict(quick=16, thorough=160), "case-offset": 1000000}, shards=16, timeout=dict(quick=7200, thorough=6 * 3600)),
         ],
     ),
     "C02": dict(
@@ -64,12 +64,12 @@ PROPS = {
         runs=[
             native("sched-release", "c01", "release", args={"family": "c02", "scale-pct": dict(quick=500, thorough=200)}),
             native("sched-debug", "c01", "debug", args={"family": "c02", "scale-pct": dict(quick=60, thorough=10)}),
-            native("sched-miri", "c01", "miri", args={"family": "c02", "cases-total": dict(quick=16, thorough=160), "case-offset": 1000000}, shards=16, timeout=7200),
+            native("sched-miri", "c01", "miri", args={"family": "c02", "cases-total": dict(quick=16, thorough=160), "case-offset": 1000000}, shards=16, timeout=dict(quick=7200, thorough=6 * 3600)),
             # free-running OS threads (no baton) under ThreadSanitizer: real weak-memory executions
             native("free-tsan", "c02free", "tsan", args={"reqs": dict(quick=12, thorough=40)}, shards=dict(quick=8, thorough=16)),
             # the same workload, tiny, under Miri (data-race detector + Stacked Borrows + weak-memory emulation),
             # a different Miri scheduler seed and pre-emption rate per shard
-            native("free-miri", "c02free", "miri", args={"reqs": dict(quick=3, thorough=4), "scale-pct": dict(quick=50, thorough=60)}, shards=16, timeout=7200),
+            native("free-miri", "c02free", "miri", args={"reqs": dict(quick=3, thorough=4), "scale-pct": dict(quick=50, thorough=60)}, shards=16, timeout=dict(quick=7200, thorough=6 * 3600)),
         ],
     ),
     "C03": dict(
@@ -86,7 +86,7 @@ PROPS = {
         runs=[
             native("hist-release", "c03", "release"),
             native("hist-debug", "c03", "debug", args={"scale-pct": dict(quick=30, thorough=10)}),
-            native("hist-miri", "c03", "miri", args={"cases-total": dict(quick=320, thorough=8000), "case-offset": 1000000}, shards=16, timeout=7200),
+            native("hist-miri", "c03", "miri", args={"cases-total": dict(quick=320, thorough=8000), "case-offset": 1000000}, shards=16, timeout=dict(quick=7200, thorough=6 * 3600)),
         ],
     ),
     "C04": dict(
@@ -103,7 +103,7 @@ PROPS = {
         runs=[
             native("enc-release", "c04", "release"),
             native("enc-debug", "c04", "debug", args={"scale-pct": dict(quick=30, thorough=5)}),
-            native("enc-miri", "c04", "miri", args={"cases-total": dict(quick=32, thorough=480), "case-offset": 1000000}, shards=16, timeout=7200),
+            native("enc-miri", "c04", "miri", args={"cases-total": dict(quick=32, thorough=480), "case-offset": 1000000}, shards=16, timeout=dict(quick=7200, thorough=6 * 3600)),
         ],
     ),
 
@@ -129,7 +129,7 @@ PROPS = {
             native("sched-release", "c01", "release", args={"family": "c06", "scale-pct": dict(quick=600, thorough=200)}),
             native("sched-debug", "c01", "debug", args={"family": "c06", "scale-pct": dict(quick=40, thorough=10)}),
             # deadlines, retries and abandonment inside the TX/RX windows under Miri (virtual clock: hook commit c4c4ebaf)
-            native("sched-miri", "c01", "miri", args={"family": "c06", "cases-total": dict(quick=16, thorough=320), "case-offset": 1000000}, shards=16, timeout=7200),
+            native("sched-miri", "c01", "miri", args={"family": "c06", "cases-total": dict(quick=16, thorough=320), "case-offset": 1000000}, shards=16, timeout=dict(quick=7200, thorough=6 * 3600)),
         ],
     ),
 
@@ -175,7 +175,7 @@ PROPS = {
         required_counters=["parsed.pdos", "parsed.sync_managers", "parsed.fmmu_ex", "parsed.string", "raw.odd_len", "raw.even_len", "chunk.4", "chunk.8", "e2e_raw_reads", "name_too_long_for_capacity"],
         runs=[native("sii-release", "c12", "release"), native("sii-debug", "c12", "debug", args={"scale-pct": dict(quick=25, thorough=5)}),
               # the parser's unsafe spots (set_len over not yet written bytes, from_utf8_unchecked) under Miri
-              native("sii-miri", "c12", "miri", args={"cases-total": dict(quick=16, thorough=800), "case-offset": 1000000}, shards=16, timeout=7200)],
+              native("sii-miri", "c12", "miri", args={"cases-total": dict(quick=16, thorough=800), "case-offset": 1000000}, shards=16, timeout=dict(quick=7200, thorough=6 * 3600))],
     ),
     "C13": dict(
         level="exploration",
@@ -190,7 +190,7 @@ PROPS = {
         required_counters=["image.wrap-to-self", "image.wrap-to-earlier", "image.category-len-ffff", "image.size-word-large", "image.string-index-past-table", "image.pdo-255x255", "image.blank-zero", "image.blank-ones", "image.next-header-at-top-of-address-space", "image.string-table-count-zero", "init_runs", "query.tx_pdos"],
         runs=[native("sii-fuzz-release", "c13", "release"), native("sii-fuzz-debug", "c13", "debug", args={"scale-pct": dict(quick=60, thorough=20)}),
               # hostile images through the same queries under Miri: an out-of-bounds index or an invalid str is a tool report
-              native("sii-fuzz-miri", "c13", "miri", args={"cases-total": dict(quick=64, thorough=3200), "case-offset": 1000000, "no-init": dict(quick=1, thorough=0)}, shards=16, timeout=7200)],
+              native("sii-fuzz-miri", "c13", "miri", args={"cases-total": dict(quick=64, thorough=3200), "case-offset": 1000000, "no-init": dict(quick=1, thorough=0)}, shards=16, timeout=dict(quick=7200, thorough=6 * 3600))],
     ),
     "C14": dict(
         level="fault_enumeration",
@@ -275,7 +275,7 @@ PROPS = {
         min_distinct=dict(quick=300, thorough=30000),
         required_counters=["op.read:expedited", "op.read:normal", "op.read:segmented", "op.write", "op.abort", "op.emergency", "op.wrong-object", "op.read-array", "op.write-array", "op.stale-out-mailbox", "read_mbx.16"],
         runs=[native("coe-release", "c15", "release"), native("coe-debug", "c15", "debug", args={"scale-pct": dict(quick=30, thorough=5)}),
-              native("coe-miri", "c15", "miri", args={"cases-total": dict(quick=16, thorough=32), "case-offset": 1000000}, shards=16, timeout=7200, tiers=('thorough',))],
+              native("coe-miri", "c15", "miri", args={"cases-total": dict(quick=16, thorough=32), "case-offset": 1000000}, shards=16, timeout=dict(quick=7200, thorough=6 * 3600), tiers=('thorough',))],
     ),
     "C16": dict(
         level="exploration",
@@ -289,7 +289,7 @@ PROPS = {
         min_distinct=dict(quick=2000, thorough=200000),
         required_counters=["entry.sdo_read_u32", "entry.sdo_write", "entry.sdo_info_list", "entry.sdo_info_quantities", "reply.mutated", "reply.emergency", "reply.segment", "reply.segmented-initiate-valid", "reply.segment-in-session", "family.sdo-info-tiny-mailbox", "device_refills_forever", "outcome.value", "outcome.error"],
         runs=[native("mbx-release", "c16", "release"), native("mbx-debug", "c16", "debug", args={"scale-pct": dict(quick=40, thorough=10)}),
-              native("mbx-miri", "c16", "miri", args={"cases-total": dict(quick=16, thorough=32), "case-offset": 1000000}, shards=16, timeout=7200, tiers=('thorough',))],
+              native("mbx-miri", "c16", "miri", args={"cases-total": dict(quick=16, thorough=32), "case-offset": 1000000}, shards=16, timeout=dict(quick=7200, thorough=6 * 3600), tiers=('thorough',))],
     ),
 
     "C17": dict(
@@ -334,7 +334,7 @@ PROPS = {
               # under ThreadSanitizer (a report is a violation) ...
               native("threads-tsan", "c20", "tsan", args={"threads": 1}, shards=dict(quick=8, thorough=16)),
               # ... and, tiny, under Miri's data-race detector / Stacked Borrows (a simulated init costs minutes there)
-              native("threads-miri", "c20", "miri", args={"threads": 1, "cases-total": dict(quick=16, thorough=32), "case-offset": 1000000}, shards=16, timeout=7200, tiers=('thorough',))],
+              native("threads-miri", "c20", "miri", args={"threads": 1, "cases-total": dict(quick=16, thorough=32), "case-offset": 1000000}, shards=16, timeout=dict(quick=7200, thorough=6 * 3600), tiers=('thorough',))],
     ),
 }
 
